@@ -22,7 +22,7 @@ if (cd $WT/$DEMODIR && go test -vet=off -count=1 -run 'Seed|Demo' . >/tmp/trysee
 rm $WT/$DEMODIR/zz_seed_demo_test.go
 cd /verif
 for id in "$@"; do
-  out=$(VERIF_REPO=$WT VERIF_ONLY=$id timeout 900 ./run.sh $id quick 2>&1)
+  out=$(VERIF_EVIDENCE_NAME=_scratch_$id VERIF_REPO=$WT VERIF_ONLY=$id timeout 900 ./run.sh $id quick 2>&1)
   code=$?
   echo "check $id quick: exit=$code $(echo "$out" | grep -o 'sig=[^ ]* (x[0-9]*)' | sort -u | head -6 | tr '\n' ' ')"
 done
